@@ -157,7 +157,7 @@ class Snapshot:
 
 class SolverRun:
     def __init__(self, N=1, lower=None, upper=None, r=2.0, eps=0.01, itersLimit=20000, answer=None,
-                 density=None, refine=False, listeners=(), problem=None, fresh_holder=False):
+                 density=None, refine=False, listeners=(), problem=None, fresh_holder=False, other=None):
         lower = [0.0] * N if lower is None else lower
         upper = [1.0] * N if upper is None else upper
         self.N = N
@@ -169,6 +169,12 @@ class SolverRun:
         self.density = density if density is not None else 10
         self.out = ""
         self.xlog = []       # curve coordinates of the trials in the order they were made (through a listener)
+        # `other` = (dimension, "before" | "after"): an unrelated solver of another dimension, with its own problem and
+        # parameters, constructed before / after this one and iterated between this solver's first calls
+        self.other = None
+        self._other_left = 4
+        if other and other[1] == "before":
+            self.other = self._make_other(other[0])
         with quiet() as buf:
             self.solver = Solver(self.problem, parameters=self.params)
             self.solver.AddListener(_XLog(self.xlog))
@@ -176,12 +182,30 @@ class SolverRun:
                 self.solver.AddListener(l)
         self.out += buf.getvalue()
 
+        if other and other[1] == "after":
+            self.other = self._make_other(other[0])
+
+    @staticmethod
+    def _make_other(N2):
+        p2 = EnvProblem(N2, [-1.0] * N2, [2.0] * N2, lambda k, y: 3.0 + float(np.sum(np.abs(y - 0.3))))
+        with quiet():
+            s2 = Solver(p2, parameters=SolverParameters(eps=0.05, r=3.0, itersLimit=50))
+            s2.DoGlobalIteration(1)
+        return s2
+
+    def _poke_other(self):
+        if self.other is not None and self._other_left > 0:
+            self._other_left -= 1
+            with quiet():
+                self.other.DoGlobalIteration(1)
+
     def step(self, n=1):
         with quiet() as buf:
             try:
                 self.solver.DoGlobalIteration(n)
             finally:
                 self.out += buf.getvalue()
+        self._poke_other()
 
     def refine(self, n, local_fn):
         """DoLocalRefinement(n) with the objective answered by local_fn(y) (local evaluations are logged apart)"""
